@@ -304,6 +304,9 @@ class WGen:
         order_sigs = [{"name": "productionTask", "ins": [], "out_types": []}] + sigs
         tasks = []
         for idx, sg in enumerate(order_sigs):
+            # variable names restart in every task: the same spelling denotes values of different
+            # types in different tasks (variables are local to a task)
+            self.nvar = 0
             env = {n: t for n, t in sg["ins"]}
             self.cur = {"callable": order_sigs[idx + 1:], "budget": cfg.budget}
             body = []
